@@ -65,6 +65,9 @@ type progCase struct {
 
 func mkCase(p *hs.Program, tags ...string) progCase {
 	pr := hs.Print(p)
+	if hs.HasCapture(p) {
+		tags = append(tags, "closure-capture")
+	}
 	return progCase{Prog: p, P: pr, Tags: tags}
 }
 
@@ -136,4 +139,14 @@ func product(bases ...int) int {
 		n *= b
 	}
 	return n
+}
+
+// markVolatile: programs with capturing closures behave nondeterministically on the VM (known
+// finding: captured variables are resolved through a map-ordered slot table).
+func markVolatile(pc progCase, r *Result) {
+	for _, t := range pc.Tags {
+		if t == "closure-capture" {
+			r.Volatile()
+		}
+	}
 }
